@@ -6,6 +6,7 @@ import (
 	"fmt"
 	"io"
 	"math/rand"
+	"strings"
 
 	chunk "github.com/ipfs/boxo/chunker"
 	"github.com/ipfs/boxo/ipld/merkledag"
@@ -41,6 +42,19 @@ type FileCase struct {
 
 func makeContent(kind string, n int, seed int64) []byte {
 	b := make([]byte, n)
+	if strings.HasPrefix(kind, "pattern:") {
+		// two-byte chunks, chunk i holds one of two values by bit i of the pattern
+		var pat int
+		fmt.Sscanf(kind, "pattern:%d", &pat)
+		for i := range b {
+			if pat&(1<<uint((i/2)%30)) != 0 {
+				b[i] = 'A'
+			} else {
+				b[i] = 'B'
+			}
+		}
+		return b
+	}
 	switch kind {
 	case "distinct":
 		for i := range b {
